@@ -162,7 +162,23 @@ class Collector:
         )
 
 
+def cap_memory(gb=8):
+    """soft address-space cap per process: a runaway allocation in the code under test becomes a
+    MemoryError in that process instead of taking the machine down"""
+    import resource
+
+    try:
+        hard = resource.getrlimit(resource.RLIMIT_AS)[1]
+        soft = gb << 30
+        if hard != resource.RLIM_INFINITY:
+            soft = min(soft, hard)
+        resource.setrlimit(resource.RLIMIT_AS, (soft, hard))
+    except (ValueError, OSError):
+        pass
+
+
 def worker_main(mod, partname, tier, seed, shard, nshards, budget, out):
+    cap_memory()
     tree.use()
     part = next(p for p in mod.PARTS if p.name == partname)
     ctx = Ctx(mod.PROPERTY, tier, seed, shard, nshards, budget)
@@ -335,6 +351,7 @@ def main(argv=None):
         print("replay:", "inconclusive" if res == "inconclusive" else "holds")
         return 2 if res == "inconclusive" else 0
 
+    cap_memory()
     t0 = time.time()
     violations = []  # (part, bucket, replay path, detail)
     known_lines = []
